@@ -1357,6 +1357,17 @@ fn run_otlp_failing(cx: &mut Ctx, collector: &Collector, batch: &str, events: &[
         if !otlp.blocking_flush(Duration::from_secs(30)) {
             cx.r.inconclusive("emit_otlp (failing values) did not flush within 30 s");
         }
+        let discarded: u64 = {
+            use emit::metric::Source as _;
+            let v = std::cell::Cell::new(u64::MAX);
+            otlp.metric_source().sample_metrics(emit::metric::sampler::from_fn(|m| {
+                if m.name() == "event_discarded" {
+                    v.set(m.value().by_ref().cast::<u64>().or_else(|| m.value().by_ref().cast::<usize>().map(|x| x as u64)).unwrap_or(u64::MAX));
+                }
+            }));
+            v.get()
+        };
+        let mut absent_failing = 0u64;
         drop(otlp);
         let batch_case = json!({"seed": cx.seed, "section": cx.section, "batch": batch, "first_idx": events.first().map(|e| e.0)});
         // (2) every request stays decodable
@@ -1421,23 +1432,48 @@ fn run_otlp_failing(cx: &mut Ctx, collector: &Collector, batch: &str, events: &[
                 .or(by_time_spans.first().map(|r| ("traces", r.attrs.clone())))
                 .or(by_time_metrics.first().map(|r| ("metrics", r.points[0].attrs.clone())));
             let label = me.directed.clone().unwrap_or_default();
-            let outcome = match &attrs {
-                None => "absent".to_string(),
+            cx.r.observe("failing:otlp:failing-events", 1);
+            match &attrs {
+                // absent as a whole: fine, the discard counter accounts for it below
+                None => {
+                    absent_failing += 1;
+                    cx.r.observe(&format!("failing:otlp:{}:{}:absent-as-a-whole", enc.name(), expected_signal(me)), 1);
+                }
+                // present: a well-formed record whose remaining attributes are faithful
                 Some((signal, attrs)) => {
-                    let bad = match attr(attrs, "bad") {
-                        None => "bad=absent".to_string(),
-                        Some(AnyObs::Empty) => "bad=key-without-value".to_string(),
-                        Some(AnyObs::Str(s)) if s == FAIL_PARTIAL => "bad=partial-text-as-value".to_string(),
-                        Some(AnyObs::Array(a)) => format!("bad=partial-array-of-{}", a.len()),
-                        Some(other) => format!("bad={}", clip(&format!("{:?}", other)).chars().take(40).collect::<String>()),
-                    };
+                    cx.r.observe(&format!("failing:otlp:{}:{}:present-without-the-failing-attribute", enc.name(), signal), 1);
+                    if let Some(v) = attr(attrs, "bad") {
+                        let what = match v {
+                            AnyObs::Empty => "key-without-value",
+                            _ => "half-written-attribute",
+                        };
+                        cx.violation(me, *idx, &format!("C13:otlp:failing-value:{}:{}:{}", enc.name(), signal, what), format!("{} {}: the value that failed to format ({}) is exported as {} in a record presented as complete", enc.name(), signal, label, clip(&format!("{:?}", v))));
+                    }
                     let expected: Vec<&str> = me.keys().into_iter().filter(|k| *k != "bad" && !LIFTED_ANYWHERE.contains(k)).collect();
                     let missing: Vec<&str> = expected.iter().copied().filter(|k| attr(attrs, k).is_none()).collect();
-                    format!("present-in-{};{};other-attributes-missing={}/{}", signal, bad, missing.len(), expected.len())
+                    if !missing.is_empty() {
+                        cx.violation(me, *idx, &format!("C13:otlp:failing-value:{}:{}:later-attributes-dropped", enc.name(), signal), format!("{} {}: the record of an event with a failing value ({}) is presented as complete but lacks attributes {:?}", enc.name(), signal, label, missing));
+                    } else {
+                        // the attributes that are there are the model's
+                        let lifted: &[&str] = match *signal {
+                            "logs" => &["lvl", "trace_id", "span_id", "err"],
+                            "traces" => &["evt_kind", "span_name", "lvl", "span_id", "span_parent", "trace_id", "err"],
+                            _ => &["metric_name", "metric_value", "metric_agg", "metric_unit", "span_id", "span_parent", "trace_id", "evt_kind"],
+                        };
+                        check_attrs(cx, me, *idx, enc, signal, attrs, lifted, *signal == "logs");
+                    }
                 }
-            };
-            cx.r.observe(&format!("failing:otlp:{}:{}:{}", enc.name(), label, outcome), 1);
+            }
             let _ = fp;
+        }
+        // an event that no signal could encode is counted as discarded, nothing else is
+        cx.r.observe("failing:otlp:discard-counter-comparisons", 1);
+        if discarded != absent_failing {
+            cx.r.violation(
+                &format!("C13:otlp:failing-value:{}:discard-counter", enc.name()),
+                &format!("{}: event_discarded = {} but {} events with a failing value are absent from every signal", enc.name(), discarded, absent_failing),
+                batch_case.clone(),
+            );
         }
     }
 }
@@ -1816,8 +1852,7 @@ fn main() {
     });
 
     // 7. values whose formatting fails part-way, between ordinary events of the same batch
-    //    (off by default until the findings it re-observes are dispositioned: `--failing-events N`)
-    let n6 = args.get_u64("failing-events", 0);
+    let n6 = args.get_u64("failing-events", args.n(2_000, 120_000));
     let batches6 = (n6 + batch - 1) / batch;
     par_cases(&mut r, &args, batches6, |b, r| {
         run_batch(r, &collector, &root, seed, "failing", b * batch, ((b + 1) * batch).min(n6), false, &sinks, dump);
